@@ -1,5 +1,6 @@
 """C09 — LossyCounter: the six Manku–Motwani formulas as term templates and path summaries."""
 from ..paths import PathEnumerator
+from ..guards import fv
 from ..terms import TermBuilder, fmt, mk, const, subterms, elem_of, linear_eq
 from ..guards import atomic_facts, int_bounds
 from ..intervals import float_facts_to_env
@@ -24,6 +25,9 @@ def is_ceil_div(t, n, w, fn=None, prog=None, tb=None):
     if t == mk("div_ceil", n, w):
         return True
     if t == mk("Div", mk("Sub", mk("Add", n, w), const(1)), w):
+        return True
+    # n/w + (n % w != 0) as usize
+    if t == mk("Add", mk("Div", n, w), ("cast", "usize", mk("Ne", mk("Rem", n, w), const(0)))):
         return True
     # n/w + {0 if n % w == 0 else 1}
     if t[0] == "op" and t[1] == "Add" and len(t[2]) == 2:
@@ -123,7 +127,7 @@ def run(ctx):
         pruned = stores or retains
         if pruned:
             n_prune += 1
-            if facts.get(repr(at_end)) is not True:
+            if fv(facts, at_end) is not True:
                 probs.append("table filtered on a path where n % width == 0 does not hold")
             for e in stores:
                 v = e["value"]
@@ -136,7 +140,7 @@ def run(ctx):
                         probs.append("prune predicate is %s, expected f + delta > b_current" % fmt(pred))
                 else:
                     probs.append("table replaced by %s" % fmt(v)[:120])
-        elif facts.get(repr(at_end)) is True:
+        elif fv(facts, at_end) is True:
             probs.append("window end reached without pruning")
     ctx.check(not probs and n_prune >= 2, "R09-prune", add.key, add, "pruning exactly at window ends, keeping f + delta > b_current (%d pruning paths)" % n_prune,
               "; ".join(sorted(set(probs))[:3]) or "no pruning path found")
